@@ -84,6 +84,7 @@ var c13Unnamed = []struct{ Type, Name string }{
 	{"[]Loc", "locs"}, {"[]int", "ints"}, {"[]string", "strings"}, {"[3]Loc", "locs"}, {"[]*Loc", "locs"},
 	{"map[string]int", "stringToInt"}, {"map[string]Loc", "stringToLoc"}, {"map[Loc]string", "locToString"},
 	{"chan int", "intCh"}, {"chan Loc", "locCh"}, {"<-chan string", "stringCh"},
+	{"[]error", "errs"}, {"chan error", "errCh"}, {"map[string]error", "stringToErr"}, {"*error", "err"}, {"[3]error", "errs"},
 	{"*string", "s"}, {"*int", "n"}, {"[]*int", "ns"}, {"**Loc", "loc"}, {"map[string]*int", "stringToN"}, {"[]*string", "ss"},
 	{"func()", "fn"}, {"func(int) string", "fn"}, {"@{time}.Duration", "duration"}, {"@{~/a/foo}.I", "i"},
 }
